@@ -279,7 +279,8 @@ func (c *Ctx) ruleCommit() {
 	if fn == nil {
 		return
 	}
-	paths := c.enum(rule, fn, PathOpts{})
+	paths := c.enum(rule, fn, PathOpts{Inline: inlineSmall("(eventlogger.Pipeline).validate", "eventlogger.getOpts", "eventlogger.linkNodes", "(*eventlogger.graph).doValidate",
+		"(*eventlogger.graphMap).Nodes", "(*eventlogger.graphMap).Store", "(*eventlogger.graphMap).Delete", "(*eventlogger.graphMap).Range", "(*eventlogger.Broker).releaseNodes", "(*eventlogger.linkedNode).flatten")})
 	nStore := 0
 	for _, pa := range paths {
 		var store *ssa.Call
@@ -380,36 +381,59 @@ func (c *Ctx) ruleCommit() {
 	if nStore == 0 {
 		r.Und(rule, "RegisterPipeline:commit", p.Pos(fn.Pos()), "no path reaches graphMap.Store")
 	}
-	// node lookup loop: nodes[i] = b.nodes[def.NodeIDs[i]].node with error exit on miss
-	tb := p.NewTerms(nil)
+	// node lookup loop: nodes[i] = b.nodes[def.NodeIDs[i]].node with error exit on miss. The loop may
+	// live in RegisterPipeline or in a package-local helper it calls with def.NodeIDs.
 	okLoop := false
+	type cand struct {
+		f    *ssa.Function
+		call *ssa.Call
+	}
+	cands := []cand{{fn, nil}}
 	eachInstr(fn, func(in ssa.Instruction) {
-		st, ok := in.(*ssa.Store)
-		if !ok {
-			return
-		}
-		ia, ok := st.Addr.(*ssa.IndexAddr)
-		if !ok || typeShort(st.Val.Type()) != "eventlogger.Node" {
-			return
-		}
-		v := tb.Of(st.Val)
-		// value: Field[node](Extract[0](Lookup(Field[nodes](b), <elem of def.NodeIDs at idx>)))
-		if !v.Is("Field", "node") || v.Args[0].Op != "Extract" || v.Args[0].Args[0].Op != "Lookup" || !v.Args[0].Args[0].Args[0].Is("Field", "nodes") {
-			return
-		}
-		key := v.Args[0].Args[0].Args[1]
-		if key.Op != "Index" || !key.Args[0].Is("Field", "NodeIDs") {
-			return
-		}
-		// same index for slot and id
-		if ia.Index != nil && key.Args[1].V == ia.Index {
-			full, _ := c.fullLoop(in, true)
-			// miss -> error return: the lookup's ok must be tested with a failing return
-			if full {
-				okLoop = true
+		if call, ok := in.(*ssa.Call); ok {
+			if sc := call.Call.StaticCallee(); sc != nil && PkgPathOf(sc) == PkgRoot && sc.Blocks != nil && sc != fn {
+				cands = append(cands, cand{sc, call})
 			}
 		}
 	})
+	for _, cd := range cands {
+		cd := cd
+		ctb := p.NewTerms(func(v ssa.Value) ssa.Value {
+			if prm, ok := v.(*ssa.Parameter); ok && cd.call != nil {
+				for i, q := range cd.f.Params {
+					if q == prm && i < len(cd.call.Call.Args) {
+						return cd.call.Call.Args[i]
+					}
+				}
+			}
+			return nil
+		})
+		eachInstr(cd.f, func(in ssa.Instruction) {
+			st, ok := in.(*ssa.Store)
+			if !ok {
+				return
+			}
+			ia, ok := st.Addr.(*ssa.IndexAddr)
+			if !ok || typeShort(st.Val.Type()) != "eventlogger.Node" {
+				return
+			}
+			v := ctb.Of(st.Val)
+			// value: Field[node](Extract[0](Lookup(Field[nodes](b), <elem of def.NodeIDs at idx>)))
+			if !v.Is("Field", "node") || v.Args[0].Op != "Extract" || v.Args[0].Args[0].Op != "Lookup" || !v.Args[0].Args[0].Args[0].Is("Field", "nodes") {
+				return
+			}
+			key := v.Args[0].Args[0].Args[1]
+			if key.Op != "Index" || key.Args[0].String() != "Field[NodeIDs](Param(1:def))" {
+				return
+			}
+			// same index for slot and id, the filled slice is what linkNodes receives
+			if ia.Index != nil && key.Args[1].V == ia.Index {
+				if full, _ := c.fullLoop(in, true); full {
+					okLoop = true
+				}
+			}
+		})
+	}
 	r.Check(okLoop, rule, "RegisterPipeline:node-lookup", p.Pos(fn.Pos()), "slot i is filled from b.nodes[def.NodeIDs[i]].node for every i (full loop; a miss returns an error)", "the node-lookup loop does not fill slot i from id i for every i")
 	if okLoop {
 		// a miss returns an error (Extract[1](Lookup) false -> error return): covered by C05.atomic paths + explicit test
